@@ -4,11 +4,12 @@ import math
 from harness import dtwgen
 
 COQ_FILES = ["theories/BandTie.v", "theories/PyWps.v", "theories/PyWpsProofs.v", "gen/Gen_cfill.v", "gen/Gen_cexpand.v",
-             "theories/CFill.v", "theories/CExpand.v", "props/C04.v"]
+             "theories/CFill.v", "theories/CExpand.v", "theories/CFillSim.v", "props/C04.v"]
 THEOREMS = [("DVProps.C04", "C04_cell_lower_bound"), ("DVProps.C04", "C04_cell_attained"),
             ("DVProps.C04", "C04_matrix_shape"), ("DVProps.C04", "C04_out_of_band_inf"),
             ("DVProps.C04", "C04_code_matrix_is_spec"), ("DVProps.C04", "C04_code_matrix_with_bound"),
-            ("DVProps.C04", "C04_code_value"), ("DVProps.C04", "C04_c_fill_and_expand_agree_on_the_slot")]
+            ("DVProps.C04", "C04_code_value"), ("DVProps.C04", "C04_c_fill_and_expand_agree_on_the_slot"),
+            ("DVProps.C04", "C04_c_fill_stores_the_matrix"), ("DVProps.C04", "C04_c_recurrence_texts")]
 TRUSTED_BASE = [
     "Coq 8.16.1 kernel (no native_compute)",
     "tools/translate_py.py (band expressions of dtw.warping_paths regenerated into coq/gen/Gen_dtw.v)",
